@@ -52,6 +52,7 @@ func runC14(c *Ctx) {
 	c.ruleContextRetiredAtomically("R14.5")
 	c.ruleOptionsAllApplied("R14.6")
 	c.ruleLifecycleVsListener("R14.7")
+	c.ruleListenerAlwaysStops("R14.8")
 }
 
 func orderedSubseq(effects, need []string) bool {
@@ -1460,5 +1461,72 @@ func (c *Ctx) ruleMinLenScan(rule string, minF *Func, mgr string) {
 		got, okLen := lenOf(res[0])
 		good := res[1].IsNil && okLen && got.I == best
 		c.Rep.check(good, rule, minF.Short(), inst, c.P.pos(body), inst+" selects a shortest non-empty item", fmt.Sprintf("%s: GetMinLenItem returns (%s, %s); MinLen must select a non-empty item of minimal length (here length %d)", inst, res[0], res[1], best))
+	}
+}
+
+// ruleListenerAlwaysStops: "cancelling a configured context stops the worker" in every state: once its context is
+// done, every path of the context listener calls Stop, except the path on which it found that its context is no
+// longer the worker's current one (a previous run's listener woken by Restart). No other condition (the status, a
+// counter) may keep the listener from stopping the worker: the goroutine is one-shot, a skipped cancellation is lost.
+func (c *Ctx) ruleListenerAlwaysStops(rule string) {
+	R := c.R
+	c.Rep.rule(rule, "E2 path", "every path of the context listener calls Stop unless its context was found not to be the current one", 1)
+	if R.Listener == nil {
+		c.Rep.ok(rule, "no context listener goroutine", "", "nothing to check", false)
+		return
+	}
+	stop := c.methodOf(R.WorkerT, "Stop")
+	var stopKeys map[string]bool
+	if stop != nil {
+		stopKeys = c.P.roleKeys(stop)
+	}
+	isCtxOfWorker := func(info *types.Info, e ast.Expr) bool {
+		return selField(info, e) == R.FCtx || c.isAccessorCall(info, e, R.FCtx)
+	}
+	sr := &seqRule{c: c, rule: rule}
+	sr.exprValSt = func(ip *Interp, fr *Frame, st *State, e ast.Expr) (Value, bool) {
+		be, ok := ast.Unparen(e).(*ast.BinaryExpr)
+		if !ok || (be.Op != token.EQL && be.Op != token.NEQ) {
+			return Value{}, false
+		}
+		info := fr.Fn.Info()
+		if isCtxOfWorker(info, be.X) || isCtxOfWorker(info, be.Y) {
+			if be.Op == token.EQL {
+				return Value{Kind: VTok, S: "current"}, true
+			}
+			return Value{Kind: VTok, S: "stale"}, true
+		}
+		return Value{}, false
+	}
+	sr.condSym = func(fr *Frame, token, rel string) string {
+		if token == "current" || token == "stale" {
+			return token + "=" + rel
+		}
+		return ""
+	}
+	sr.classify = func(fr *Frame, call *ast.CallExpr, ce *Callee, args []Value) *callEvent {
+		if stopKeys[ce.Key] {
+			return &callEvent{Name: "Stop", Atomic: true}
+		}
+		if ce.Builtin != "" || ce.Conv {
+			return nil
+		}
+		if g := c.P.byObj[ce.Key]; g != nil && g.Lib && stop != nil && c.reachesSync(g, stop.Key) {
+			return nil // a helper that stops the worker: followed
+		}
+		return &callEvent{Atomic: true}
+	}
+	n := 0
+	for _, sg := range sr.segments(R.Listener) {
+		if sg.Kind != "path" {
+			continue
+		}
+		n++
+		good := sg.has("Stop") || sg.has("current=false") || sg.has("stale=true")
+		c.Rep.check(good, rule, R.Listener.Short(), "context listener does not stop the worker on some path", sg.End, "Stop, unless the context is not the current one",
+			"a path of the context listener ends without calling Stop although its context is done and still the worker's current one ["+strings.Join(sg.Syms, " ")+"]: a cancellation that arrives in that situation (e.g. while the worker is paused) is dropped for good, the worker keeps running with a dead context")
+	}
+	if n == 0 {
+		c.Rep.undecided(rule, R.Listener.Short(), "no path", c.P.pos(R.Listener.Body), "the walker found no path through the context listener")
 	}
 }
